@@ -77,11 +77,11 @@ def run(tier):
                              {"bnf": r["text"], "op": h["line"], "reused": h["impl"], "fresh": h["fresh"]})
     ck.proof_failures(failed, "C03 theorems")
     ck.cov.update({"evaluations": st["results_checked"] + st["failing_action_runs"], "distinct_nontrivial": len(nontrivial),
-                   "rule": "conflict-free random grammars whose alternatives carry one of five action shapes ($n, $Tn, $Context, X, none / empty); "
+                   "rule": "conflict-free random grammars whose alternatives carry one of eight action shapes ($n incl. $10, $Tn, $Context, a copy of X, X itself retained, printf verbs, none / empty); "
                            "accepted inputs are compared with a tree evaluator that does not use LR tables; every accepted input is re-run with the 1st, a random "
                            "and the last action call failing; non-trivial = distinct (grammar, sentence) with >= 2 action calls",
                    "grammars_validated_by_verified_checker": validated, "stats": st, "model_disagreements": ties,
                    "samples": [c for r in res if pc.is_lr1(r) for c in r["cases"] if c["kind"] == "fail"][:2]})
-    ck.assumptions += ["attribute values are immutable in the model; an action that retains the slice X itself can observe later overwrites (popN aliases the stack)",
-                       "SDTVal's $-rewriting is exercised through the five harness shapes, compiled by the Go compiler"]
+    ck.assumptions += ["attribute values are immutable in the model; since fix D17 the generated parser hands every action its own copy of X (action shape 8 keeps X and reads it when the result is rendered)",
+                       "SDTVal's $-rewriting is exercised through the harness shapes, compiled by the Go compiler"]
     return ck.finish()
